@@ -111,6 +111,16 @@ type Schema struct {
 	Cols []Col    `json:"cols"`
 	PK   []int    `json:"pk"`
 	Uniq []Unique `json:"uniq"`
+	// Planned: a unique index that the history will try to create later (CREATE UNIQUE INDEX / ALTER TABLE ADD UNIQUE
+	// KEY); nil if none.  Only used to keep WHERE / ORDER BY away from its columns from the start.
+	Planned *Unique `json:"planned,omitempty"`
+}
+
+// WithUnique returns the schema after the index was created.
+func (s Schema) WithUnique(u Unique) Schema {
+	n := s
+	n.Uniq = append(append([]Unique(nil), s.Uniq...), u)
+	return n
 }
 
 func colName(i int) string { return fmt.Sprintf("c%d", i) }
@@ -206,7 +216,9 @@ type Order struct {
 }
 
 type Stmt struct {
-	Kind   string   `json:"kind"` // insert | ignore | replace | odku | update | delete
+	Kind   string   `json:"kind"`            // insert | ignore | replace | odku | update | delete | addunique
+	Index  *Unique  `json:"index,omitempty"` // addunique: the index to create
+	Alter  bool     `json:"alter,omitempty"` // addunique: ALTER TABLE ... ADD UNIQUE KEY instead of CREATE UNIQUE INDEX
 	Rows   []Row    `json:"rows,omitempty"`
 	Assign []Assign `json:"assign,omitempty"`
 	Where  *Pred    `json:"where,omitempty"`
@@ -216,7 +228,11 @@ type Stmt struct {
 
 // InUnique: is column c part of a unique secondary index?
 func (s Schema) InUnique(c int) bool {
-	for _, u := range s.Uniq {
+	us := s.Uniq
+	if s.Planned != nil {
+		us = append(append([]Unique(nil), us...), *s.Planned)
+	}
+	for _, u := range us {
 		for _, x := range u.Cols {
 			if x == c {
 				return true
@@ -332,6 +348,19 @@ func (st Stmt) SQL(t string, sch Schema) string {
 		return "UPDATE " + t + " SET " + assignsSQL(st.Assign) + st.tail(sch)
 	case "delete":
 		return "DELETE FROM " + t + st.tail(sch)
+	case "addunique":
+		var n []string
+		for j, c := range st.Index.Cols {
+			x := colName(c)
+			if st.Index.Prefix[j] > 0 {
+				x += fmt.Sprintf("(%d)", st.Index.Prefix[j])
+			}
+			n = append(n, x)
+		}
+		if st.Alter {
+			return "ALTER TABLE " + t + " ADD UNIQUE KEY ux (" + strings.Join(n, ",") + ")"
+		}
+		return "CREATE UNIQUE INDEX ux ON " + t + " (" + strings.Join(n, ",") + ")"
 	}
 	panic("bad statement kind " + st.Kind)
 }
@@ -346,6 +375,8 @@ func (st Stmt) Coq() string {
 		lim = fmt.Sprintf("(Some %d)", st.Limit)
 	}
 	switch st.Kind {
+	case "addunique":
+		return "(AAddUnique " + lib.CoqListOf(st.Index.Cols, coqNat) + " " + lib.CoqListOf(st.Index.Prefix, lib.CoqNat) + ")"
 	case "insert":
 		return "(SInsert IPlain " + RowsCoq(st.Rows) + ")"
 	case "ignore":
@@ -587,6 +618,16 @@ func (s Schema) Ref(rows []Row, st Stmt) RefResult {
 	copy(cur, rows)
 	fail := RefResult{Dup: true, Rows: rows}
 	switch st.Kind {
+	case "addunique":
+		// the index can be created iff no two rows are equal in it (collation, character prefix, NULLs never equal)
+		for i := range cur {
+			for j := i + 1; j < len(cur); j++ {
+				if s.uniqEq(*st.Index, cur[i], cur[j]) {
+					return fail
+				}
+			}
+		}
+		return RefResult{Rows: cur}
 	case "insert":
 		for _, r := range st.Rows {
 			if s.firstConflict(cur, r, -1) >= 0 {
